@@ -100,6 +100,7 @@ var regShapes = []string{
 	"m1 = macro(a){quote(unquote(a) + X)}", "m2 = macro(X){quote(X)}", "m3 = macro(a, X){quote(1)}", "macro(){quote(X)}",
 	`"X"`, "1.5", "true", "nil", "// X\nX", "/* X */ 1", "1 /* X */ + X", "9223372036854775807", "-9223372036854775808", "0x10",
 	"self", "info", "info.X", "X.info",
+	"quote(X)", "quote(1); X", "Y = quote(X + 1); X", "eval(\"X + 1\")", "eval(\"1\") + X", "e9 = eval; e9(\"X\") + X", "[eval][0](\"X\")", "eval", "unquote(X)",
 	"if X == 0 { return 1 }; X * f(X - 1)",
 	"s = 0; for j = X { s = s + j * X }; s",
 	"a = [0,0,0]; a[X] = X; a",
